@@ -5,6 +5,7 @@ import (
 	"strings"
 
 	"verif/harness/core"
+	"verif/harness/objmodel"
 )
 
 // quarantine: ids of known findings (known-findings.d/C04.json) whose minimal syntactic neighbourhood the generator
@@ -29,54 +30,148 @@ var quarantine = func() map[string]bool {
 	return q
 }()
 
+// Quarantine ids (each is the id of a known finding; the rule is the minimal syntactic neighbourhood of its witness).
+const (
+	qSetForeignSym   = "C04-setForeignSym-receiver"
+	qKindChange      = "C04-define-kind-change-nonconfigurable"
+	qErrMsgConv      = "C04-error-message-stringifies-object"
+	qDynCycle        = "C04-dynamic-proto-cycle"
+	qDynDefine       = "C04-dynamic-define-without-value"
+	qSliceLengthKey  = "C04-slice-wrapper-ownkeys-length"
+	qStringIndex     = "C04-string-index-redefine"
+	qMappedArgs      = "C04-mapped-arguments-attributes"
+	qLengthConvOrder = "C04-array-length-set-conversion-order"
+	qArrayProto      = "C04-array-prototype-length-bookkeeping"
+	qLazyProto       = "C04-lazy-function-prototype-order"
+	qRefMapConfig    = "C04-reflect-map-entries-nonconfigurable"
+	qTruncation      = "C04-array-length-truncation-nonconfigurable"
+	qDynArrGet       = "C04-dynamic-array-get-string-index"
+	qGoMapForeignIdx = "C04-gomap-setforeignidx"
+	qHostSlice       = "C04-host-slice-elements-nonconfigurable-removable"
+	qSliceSealWipe   = "C04-slice-seal-wipes-elements" // neighbourhood (seal/freeze/define without value on slice wrappers) is inside qHostSlice's
+)
+
+func isIndexKey(k string) bool {
+	ki := keyByName[k]
+	return ki != nil && (ki.class == "index" || ki.class == "index-max")
+}
+
 // excluded reports whether op lies in the neighbourhood of a listed known finding.
 func excluded(c *Case, o *Op) bool {
-	if quarantine["C04-setForeignSym-receiver"] {
+	onT := o.Obj == "T"
+	arrayKind := c.Kind == "dense" || c.Kind == "sparse" || c.Kind == "arrayproto"
+	if quarantine[qSetForeignSym] {
 		// Reflect.set(target, <symbol>, v, <object receiver other than target>)
 		if o.Op == "set" && o.Recv != "" && o.Recv != o.Obj && keyByName[o.Key].sym != "" && isObjectValue(o.Recv) {
 			return true
 		}
 	}
-	if quarantine["C04-string-index-redefine"] {
-		// [[DefineOwnProperty]] on a String object's own index with a value
-		if c.Kind == "string" && o.Op == "define" && o.Obj == "T" && (o.Key == "0" || o.Key == "1") && o.Mask&1 != 0 {
+	if quarantine[qKindChange] && o.Op == "define" {
+		// a data descriptor without [[Value]], or an accessor descriptor whose given functions are all undefined
+		if o.Mask&2 != 0 && o.Mask&(1|4|8) == 0 {
+			return true
+		}
+		if o.Mask&(4|8) != 0 && o.Mask&(1|2) == 0 && (o.Mask&4 == 0 || o.Get == "u") && (o.Mask&8 == 0 || o.Set == "u") {
 			return true
 		}
 	}
-	if quarantine["C04-dynamic-proto-cycle"] {
-		// [[SetPrototypeOf]] of a Dynamic object/array to an object (a cycle kills the process)
-		if (c.Kind == "dynobj" || c.Kind == "dynarr") && o.Obj == "T" && (o.Op == "setProto" || o.Op == "set" && o.Key == "__proto__") && isObjectValue(o.Val) {
-			return true
-		}
-	}
-	if quarantine["C04-setproto-nonextensible-tostring"] {
-		// a failing [[SetPrototypeOf]] reported by throwing: any setProto/__proto__ assignment after an integrity op on the same object
-		if o.Op == "setProto" && o.Iss != "reflect" || o.Op == "set" && o.Key == "__proto__" {
-			for _, p := range c.Ops {
-				if p.Obj == o.Obj && (p.Op == "preventExtensions" || p.Op == "seal" || p.Op == "freeze") {
+	if quarantine[qErrMsgConv] {
+		// a failing delete reported by throwing while a @@toStringTag accessor may be on the chain
+		if o.Op == "delete" && (o.Iss == "jss" || o.Iss == "go") {
+			for _, k := range c.Keys {
+				if k == "@@toStringTag" {
 					return true
 				}
 			}
 		}
+		// arrays and typed arrays convert themselves to a string even when the failure is not reported by throwing
+		if o.Op == "delete" && onT && (arrayKind || c.Kind == "ta") && keyByName[o.Key].sym == "" {
+			if _, isNum := objmodelNumeric(keyByName[o.Key].str); isNum {
+				return true
+			}
+		}
 	}
-	if quarantine["C04-host-slice-elements-nonconfigurable-removable"] {
+	if quarantine[qDynCycle] {
+		// [[SetPrototypeOf]] of a Dynamic object/array to an object (a cycle kills the process)
+		if (c.Kind == "dynobj" || c.Kind == "dynarr") && onT && (o.Op == "setProto" || o.Op == "set" && o.Key == "__proto__") && isObjectValue(o.Val) {
+			return true
+		}
+	}
+	if quarantine[qDynDefine] {
+		if (c.Kind == "dynobj" || c.Kind == "dynarr") && onT && o.Op == "define" && o.Mask&1 == 0 {
+			return true
+		}
+	}
+	if quarantine[qSliceLengthKey] {
+		if c.Kind == "dynarr" && onT && o.Op == "ownKeys" && o.Iss == "go" {
+			return true
+		}
+	}
+	if quarantine[qStringIndex] {
+		// [[DefineOwnProperty]] on a String object's character index
+		if c.Kind == "string" && o.Op == "define" && onT && (o.Key == "0" || o.Key == "1") {
+			return true
+		}
+	}
+	if quarantine[qMappedArgs] && c.Kind == "margs" && onT {
+		if o.Op == "define" && (o.Key == "0" || o.Key == "1") && (o.Mask&16 != 0 && o.Flags&2 == 0 || o.Mask&32 != 0 && o.Flags&4 == 0) {
+			return true
+		}
+		if o.Op == "seal" || o.Op == "freeze" {
+			return true
+		}
+	}
+	if (quarantine[qLengthConvOrder] || quarantine[qTruncation]) && arrayKind && o.Key == "length" && (onT || o.Recv == "T") {
+		// conversion order: assignments whose value does not convert to a valid length; truncation: any shrinking write
+		if o.Op == "set" && quarantine[qLengthConvOrder] {
+			switch o.Val {
+			case "0", "1", "2", "300", "big", "s7", "-0", "n", "t", "f", "s":
+			default:
+				return true
+			}
+		}
+		if (o.Op == "set" || o.Op == "define" && o.Mask&1 != 0) && quarantine[qTruncation] && o.Val != "big" {
+			return true
+		}
+	}
+	if quarantine[qArrayProto] && c.Kind == "arrayproto" && (onT || o.Recv == "T") {
+		if o.Op == "set" && (isIndexKey(o.Key) || o.Key == "length") {
+			return true
+		}
+		if o.Op == "define" && o.Key == "length" && o.Mask&2 != 0 && o.Flags&1 == 0 {
+			return true
+		}
+	}
+	if quarantine[qRefMapConfig] && c.Kind == "gorefmap" && onT && o.Op == "delete" {
+		return true
+	}
+	if quarantine[qDynArrGet] && c.Kind == "dynarr" && o.Op == "get" && (onT || o.Obj == "D") && o.Key != "" && keyByName[o.Key].sym == "" {
+		if _, isNum := objmodelNumeric(keyByName[o.Key].str); isNum {
+			return true
+		}
+	}
+	if quarantine[qGoMapForeignIdx] && c.Kind == "gomap" && o.Op == "set" && isIndexKey(o.Key) && (o.Recv != "" || o.Obj == "D") {
+		return true
+	}
+	if quarantine[qSliceSealWipe] && (c.Kind == "goslice" || c.Kind == "gorefslice") && onT {
+		if o.Op == "seal" || o.Op == "freeze" || o.Op == "define" && o.Mask&1 == 0 {
+			return true
+		}
+	}
+	if quarantine[qHostSlice] {
 		// Go slice wrappers: elements are reported non-configurable but vanish when length shrinks, and a non-extensible
 		// wrapper still grows: no length writes and no integrity ops on the wrapper
-		if (c.Kind == "goslice" || c.Kind == "gorefslice") && o.Obj == "T" {
+		if (c.Kind == "goslice" || c.Kind == "gorefslice") && (onT || o.Recv == "T") {
 			if o.Key == "length" && (o.Op == "set" || o.Op == "define") || o.Op == "preventExtensions" || o.Op == "seal" || o.Op == "freeze" {
 				return true
 			}
 		}
-		if (c.Kind == "goslice" || c.Kind == "gorefslice") && o.Op == "set" && o.Recv == "T" && o.Key == "length" {
-			return true
-		}
-	}
-	if quarantine["C04-detached-typedarray-ownkeys"] {
-		if o.Op == "detach" {
-			return true
-		}
 	}
 	return false
+}
+
+func objmodelNumeric(s string) (float64, bool) {
+	return objmodel.StrKey(s).CanonicalNumericIndex()
 }
 
 func isObjectValue(n string) bool {
@@ -170,6 +265,9 @@ func genCase(r *core.Rng) *Case {
 		}
 		if have[k] {
 			continue
+		}
+		if quarantine[qSliceLengthKey] && k == "length" && (c.Kind == "goslice" || c.Kind == "gorefslice") {
+			continue // the wrappers do not list their own 'length': every observation would re-derive the finding
 		}
 		if hostSliceKind(c.Kind) || c.Kind == "gorefmap" {
 			// host slices grow to the index written (memory exhaustion by construction): small indices only
@@ -346,7 +444,11 @@ func twinOps(c *Case) []Op {
 				if cand == o.Iss {
 					cand = core.Pick(r, ok)
 				}
-				o.Iss = cand
+				trial := *o
+				trial.Iss = cand
+				if !excluded(c, &trial) {
+					o.Iss = cand
+				}
 			}
 			if o.Iss == "go" {
 				o.Num = false
